@@ -44,27 +44,27 @@ type Clause struct {
 	Line int
 	Name string // for let
 	// assigns: list of expressions, or nothing
-	Assigns []ast.Expr
-	Nothing bool
-	Like    *ast.CallExpr // like: callee contract instantiated with these arguments
+	Assigns  []ast.Expr
+	Nothing  bool
+	Like     *ast.CallExpr // like: callee contract instantiated with these arguments
 	NoResult bool
 }
 
 type Contract struct {
-	Synth    bool // synthesised for an unlisted pure library function
-	Key      string // "pop" / "parseState.pop" / "strings.TrimSpace"
-	Assumed  bool
-	Pure     bool
-	Header   string
-	Decl     *ast.FuncDecl // parsed header (names for params/results)
-	Props    []string
-	Clauses  []*Clause
-	Line     int
-	Traced   bool
-	NoInline bool
-	NoMerge  bool // explore paths separately (no state merging at joins)
+	Synth        bool   // synthesised for an unlisted pure library function
+	Key          string // "pop" / "parseState.pop" / "strings.TrimSpace"
+	Assumed      bool
+	Pure         bool
+	Header       string
+	Decl         *ast.FuncDecl // parsed header (names for params/results)
+	Props        []string
+	Clauses      []*Clause
+	Line         int
+	Traced       bool
+	NoInline     bool
+	NoMerge      bool // explore paths separately (no state merging at joins)
 	allSpecFuncs []string
-	Bounded  string // free text: function is checked by a bounded stand-in only
+	Bounded      string // free text: function is checked by a bounded stand-in only
 }
 
 type SpecFunc struct {
